@@ -637,3 +637,68 @@ def run_calls(ctx, cuqi, rs, thorough):
             finally:
                 cuqi.config.MAX_DIM_INV = saved_max
     ctx.extra_cov["call_table_histogram"] = hist
+
+
+# ----------------------------------------------------------------------------------------------- huge objectives on the optimisation route
+def run_opt_huge(ctx, cuqi, rs, thorough):
+    """optimisation route with a HUGE objective at the start point (|logd(x0)| ~ 1e8 .. 1e12: noise std 1e-4 / 1e-5, O(1) data
+    misfit) and directions of very different sensitivity (one column of A scaled by 1e-2 / 1e-3, well-conditioned otherwise,
+    full column rank): ML (default start, zeros start) and `_solve_max_point(posterior)` with a weak Gaussian prior vs the
+    exact rational (generalised) least-squares / posterior-mean reference -- the point itself, relative to |x|."""
+    import harness.props.c15 as base
+    from cuqi.distribution import Gaussian
+    from cuqi.model import LinearModel
+    from cuqi.problem import BayesianProblem
+    nprob = 60 if thorough else 12
+    probs, lines = [], []
+    for k in range(nprob):
+        n = int(rs.randint(2, 4)); m = n + int(rs.randint(0, 3))
+        for _ in range(50):
+            B = rs.randint(-2, 3, size=(m, n)).astype(float)
+            for i in range(n):
+                B[i, i] += 3.0
+            if np.linalg.cond(B) < 20:
+                break
+        else:
+            continue
+        ratio = [1e-3, 1e-2, 2.0 ** -9][k % 3]
+        colsc = np.ones(n); colsc[rs.randint(0, n)] = ratio
+        A = B * colsc[None, :]
+        s = [1e-4, 1e-5, 2.0 ** -13][k % 3]
+        xt = rs.randint(-4, 6, size=n).astype(float)
+        b = A @ xt + (0.0 if k % 2 else 1.0) * s * rs.randint(-2, 3, size=m)
+        w = base.F(1.0) / (base.F(s) * base.F(s))
+        We = [[w if i == j else Fraction(0) for j in range(m)] for i in range(m)]
+        Wx0 = [[Fraction(0)] * n for _ in range(n)]
+        Wx1 = [[Fraction(1, 10 ** 6) if i == j else Fraction(0) for j in range(n)] for i in range(n)]
+        probs.append((A, s, b, n, m, ratio))
+        lines.append(f"ref {qm(A)} {base.sm(We)} {base.sm(Wx0)} {qv(np.zeros(n))} {qv(b)}")
+        lines.append(f"ref {qm(A)} {base.sm(We)} {base.sm(Wx1)} {qv(np.zeros(n))} {qv(b)}")
+    outs = ctx.lean.drive(lines) if lines else []
+    hist = {"f0_log10": {}, "ok": 0}
+    for i, (A, s, b, n, m, ratio) in enumerate(probs):
+        o_ml, o_map = outs[2 * i], outs[2 * i + 1]
+        if not (o_ml.startswith("mean=") and o_map.startswith("mean=")):
+            ctx.note("opt-huge: no exact reference"); continue
+        ref_ml = np.array([float(v) for v in pv(o_ml.split(" ")[0][5:])])
+        ref_map = np.array([float(v) for v in pv(o_map.split(" ")[0][5:])])
+        with quiet():
+            x = Gaussian(np.zeros(n), 1e6); y = Gaussian(LinearModel(A)(x), s ** 2)
+            BP = BayesianProblem(y, x).set_data(y=b)
+            f0 = abs(float(np.asarray(BP.likelihood.logd(np.ones(n))).ravel()[0]))
+        hb = str(int(np.floor(np.log10(max(f0, 1.0)))))
+        hist["f0_log10"][hb] = hist["f0_log10"].get(hb, 0) + 1
+        desc = {"A": A.tolist(), "noise_std": s, "b": b.tolist(), "prior_cov": 1e6, "column_scale": ratio, "abs_logd_at_ones": f0}
+        jobs = [("ML", "ML:opt-huge:ones", lambda: BP.ML(disp=False), BP.likelihood, ref_ml),
+                ("ML-x0", "ML:opt-huge:zeros", lambda: BP.ML(disp=False, x0=np.zeros(n)), BP.likelihood, ref_ml),
+                ("MAP-forced", "MAP:opt-huge:solve_max_point", lambda: cuqi.array.CUQIarray(BP._solve_max_point(BP.posterior, disp=False)[0], geometry=BP.posterior.geometry), BP.posterior, ref_map)]
+        for nm, key, call, dens, ref in jobs:
+            ctx.case("opt-huge-" + nm, {**desc, "call": nm})
+            try:
+                with quiet():
+                    xv = np.asarray(call(), dtype=float).ravel()
+            except Exception as e:
+                ctx.note(f"{key} raises {type(e).__name__}"); continue
+            hist["ok"] += 1
+            base.oracle_point(ctx, key, {**desc, "returned": xv.tolist()}, dens, xv, ref, rs, tol_point=2e-3, tol_logd=1e-7, grad_tol=1e-5, what=nm)
+    ctx.extra_cov["opt_huge_histogram"] = hist
